@@ -1,6 +1,6 @@
 (* C09: the minimiser iterator emits exactly the maximal runs of same-minimiser windows. *)
 From Coq Require Import NArith List.
-From KT Require Import Gen.Generated Gen.Alphabet Gen.GeneratedFacts Model.Kmer Proof.MinAbs Proof.MinSpec Proof.MinConc Proof.MinExt.
+From KT Require Import Gen.Generated Gen.Alphabet Gen.GeneratedFacts Model.Kmer Proof.MinAbs Proof.MinSpec Proof.MinConc Proof.MinExt Proof.NoSentinel.
 Import ListNotations.
 Open Scope N_scope.
 
@@ -24,6 +24,15 @@ Proof.
   exact (grp_go_ext_bytes nt4m digit_of_letter w m (fun b => 4 <= b < 256) s Hs C09_alphabet).
 Qed.
 
+(* nothing - in particular no placeholder value u64::MAX - is emitted that is not a window minimum of canonical
+   m-mer codes: every emitted value is below u64::MAX, for every input *)
+Theorem C09_no_placeholder_is_ever_emitted :
+  forall w m s, (1 <= m <= w)%nat -> (m <= 31)%nat ->
+  Forall (fun o : N * nat * nat => fst (fst o) < 18446744073709551615) (mg_run nt4m w m s).
+Proof.
+  intros w m s H1 H2. rewrite (mg_run_grp nt4m w m H1 H2 s). exact (spec_runs_below_sentinel nt4m w m H1 H2 s).
+Qed.
+
 Example C09_example :
   mg_run nt4m 8 5 [65;84;71;67;71;65;84;65;84;67;71;78;84;65;71;71;67;71;84;67;71;65;84;71;71;65]
   = [(217, 0%nat, 8%nat); (205, 1%nat, 11%nat); (101, 12%nat, 22%nat); (216, 15%nat, 26%nat)].
@@ -32,3 +41,4 @@ Proof. vm_compute. reflexivity. Qed.
 Print Assumptions C09_runs_exact.
 Print Assumptions C09_alphabet.
 Print Assumptions C09_runs_exact_letters.
+Print Assumptions C09_no_placeholder_is_ever_emitted.
